@@ -1,6 +1,7 @@
 package main
 
 import (
+	"os"
 	"fmt"
 	"go/token"
 	"go/types"
@@ -693,6 +694,10 @@ func (fc *FuncCtx) evalSpecCall(st *State, e *SExpr, sc *specCtx) Val {
 		return a
 	}
 	if fv.FnObj != nil {
+		if os.Getenv("GOVC_DEBUG") != "" {
+			pp, k := funcKeyOf(fv.FnObj)
+			fmt.Fprintf(os.Stderr, "DEBUG speccall %s::%s contract=%v recvTyp=%v\n", pp, k, fc.eng.contractFor(fv.FnObj) != nil, func() any { if fv.Recv != nil { return fv.Recv.Typ }; return nil }())
+		}
 		args := evalArgs()
 		sig := fv.FnObj.Type().(*types.Signature)
 		if fv.Recv == nil {
